@@ -12,7 +12,7 @@ use flsrc::uci::Flounder;
 use refchess::{Kind, Mv, Pos};
 use serde_json::{json, Value};
 
-pub const RULE: &str = "game histories with controlled multiplicities: from startpos or a generated valid FEN, a random prefix, then shuffle cycles (both sides move a man out and back, 0..3 full cycles, knight/king/rook/bishop/queen shuffles, with and without lost castling rights, vanished ep squares or an intervening irreversible move) and a partial cycle, so that the candidate successors of the final position P have 0, 1, 2 or >=3 earlier occurrences; 1..2 position commands on a fresh engine (only the last one's history may count; in a fifth of the cases the game is given first and then its final position again as a bare 'position fen …' / 'position startpos' without moves, whose history is that single position). Oracle (value level, through the real command path): 'position ...' then 'go depth 1'; the score of the completed depth-1 iteration must equal max over legal m of ( n(m) >= 2 ? 0 : -Q(P·m) ), Q = reference quiescence value, n(m) = occurrences of P·m in the most recent command's history. Successors whose count differs between the rule-book identity (ep only if capturable) and the exact-field identity are not judged. Non-trivial = the case discriminates (value with the draw rule != value without it, or a successor seen exactly once keeps its real non-zero value while deciding the maximum) ; distinct by command text. Part 'interrupted': the same oracle after 1..3 searches of the judged position that were cut off by a node deadline (mostly inside their first iterations) with no position command in between; half of the cases are judged by 'go depth 1' (excluded when it used a cached result), half by 'go depth 2|3' with the oracle of the part 'deep' (what the cut searches cached is true for this very history; excluded only when a DEEPER cached result was used). Part 'two-components' (ENUMERATED, 1024 histories): a double pawn push on every file, then rook, king or knight shuffles of both sides (every combination of lost rights) after which the position comes back WITHOUT its en-passant square AND without a castling right (two components differ at once: a different position by any reading), stopped one move before that later position would occur the second time: its value must be the real one. Part 'veteran': the same depth-1 oracle on an engine that keeps searching heavy middlegame positions in between (chunks of 1.4 M nodes ended by a node deadline; 9 chunks per engine quick, 40 thorough), one few-men case after every chunk — the tables hold hundreds of thousands of entries by then (maximum reported), nothing of which the case may use (a judged search that used a cached result is excluded). Part 'deep' (values two and three plies down): the same kind of game (mostly 3..6 men, often one or two plies off the shuffle cycle so that the twice-seen positions lie two or three plies below the root), then 'go depth 2|3' on a fresh engine; EVERY completed iteration i must report V_h(P,i) = plain minimax over the reference rules in which any position below the root that the judged history already shows twice is worth 0, leaves by the reference quiescence (with depth <= 3 no position can recur inside the line itself, and the deeper-entry-reuse counter must be 0). Cases whose value differs between the two identities of positions are not judged. Non-trivial there = the rule applied one ply below the root only would give another value (a draw two or three plies down decides), or an abandoned earlier game would; distinct by (command text, depth).";
+pub const RULE: &str = "game histories with controlled multiplicities: from startpos or a generated valid FEN, a random prefix (one start-position game in twelve: 200..600 plies without a repeated position), then shuffle cycles (both sides move a man out and back, 0..3 full cycles, knight/king/rook/bishop/queen shuffles, with and without lost castling rights, vanished ep squares or an intervening irreversible move) and a partial cycle, so that the candidate successors of the final position P have 0, 1, 2 or >=3 earlier occurrences; 1..2 position commands on a fresh engine (only the last one's history may count; in a fifth of the cases the game is given first and then its final position again as a bare 'position fen …' / 'position startpos' without moves, whose history is that single position). Oracle (value level, through the real command path): 'position ...' then 'go depth 1'; the score of the completed depth-1 iteration must equal max over legal m of ( n(m) >= 2 ? 0 : -Q(P·m) ), Q = reference quiescence value, n(m) = occurrences of P·m in the most recent command's history. Successors whose count differs between the rule-book identity (ep only if capturable) and the exact-field identity are not judged. Non-trivial = the case discriminates (value with the draw rule != value without it, or a successor seen exactly once keeps its real non-zero value while deciding the maximum) ; distinct by command text. Part 'interrupted': the same oracle after 1..3 searches of the judged position that were cut off by a node deadline (mostly inside their first iterations) with no position command in between; half of the cases are judged by 'go depth 1' (excluded when it used a cached result), half by 'go depth 2|3' with the oracle of the part 'deep' (what the cut searches cached is true for this very history; excluded only when a DEEPER cached result was used). Part 'two-components' (ENUMERATED, 1024 histories): a double pawn push on every file, then rook, king or knight shuffles of both sides (every combination of lost rights) after which the position comes back WITHOUT its en-passant square AND without a castling right (two components differ at once: a different position by any reading), stopped one move before that later position would occur the second time: its value must be the real one. Part 'veteran': the same depth-1 oracle on an engine that keeps searching heavy middlegame positions in between (chunks of 1.4 M nodes ended by a node deadline; 9 chunks per engine quick, 40 thorough), one few-men case after every chunk — the tables hold hundreds of thousands of entries by then (maximum reported), nothing of which the case may use (a judged search that used a cached result is excluded). Part 'deep' (values two and three plies down): the same kind of game (mostly 3..6 men, often one or two plies off the shuffle cycle so that the twice-seen positions lie two or three plies below the root), then 'go depth 2|3' on a fresh engine; EVERY completed iteration i must report V_h(P,i) = plain minimax over the reference rules in which any position below the root that the judged history already shows twice is worth 0, leaves by the reference quiescence (with depth <= 3 no position can recur inside the line itself, and the deeper-entry-reuse counter must be 0). Cases whose value differs between the two identities of positions are not judged. Non-trivial there = the rule applied one ply below the root only would give another value (a draw two or three plies down decides), or an abandoned earlier game would; distinct by (command text, depth).";
 
 pub fn reversible(p: &Pos, m: &Mv) -> bool {
     let i = p.info(*m);
@@ -50,9 +50,17 @@ pub fn one_cycle(s: &mut Src, x: &Pos) -> Option<[Mv; 4]> {
 /// Builds the move list: prefix + cycles*(a,b,a',b') + (a,b,a').  Returns moves and the would-be
 /// closing move b'.
 pub fn build_history(s: &mut Src, start: &Pos) -> Option<(Vec<Mv>, Pos)> {
-    let prefix = gen::ply_count(s, 40);
-    let (steps, x) = gen::playout(s, start, prefix);
-    let mut moves: Vec<Mv> = steps.iter().map(|t| t.1).collect();
+    // one game in twelve from the start position is LONG before the shuffles begin: 200..600 plies
+    // without a repeated position (the record the position command builds gets hundreds of entries)
+    let (mut moves, x): (Vec<Mv>, Pos) = if *start == Pos::startpos() && s.chance(8) {
+        let n = 200 + s.below(400);
+        let (m, x, _) = gen::long_game(s, n);
+        (m, x)
+    } else {
+        let prefix = gen::ply_count(s, 40);
+        let (steps, x) = gen::playout(s, start, prefix);
+        (steps.iter().map(|t| t.1).collect(), x)
+    };
     let la: Vec<Mv> = x.legal_moves().into_iter().filter(|m| reversible(&x, m)).collect();
     if la.is_empty() {
         return None;
@@ -468,6 +476,9 @@ pub fn judge_on(engine: Option<&mut Flounder>, cmds: &[String], judged_history: 
     }
     if any_draw {
         stats.class("has_successor_seen_twice_or_more");
+    }
+    if judged_history.len() > 301 {
+        stats.class("history_longer_than_300_plies");
     }
     if judged_history.len() > 101 {
         stats.class("history_longer_than_100_plies");
